@@ -20,9 +20,12 @@ const (
 	SliceMap  Kind = "slice-map" // []map[string]T
 	Url       Kind = "url"       // strings only, raw in the query string
 	UrlEsc    Kind = "url-esc"   // strings only, the value percent-encoded (carries '%' and '+', which survive the library's whole-URL decoding)
+	// StructTagHist is StructTag preceded, on another object of the same type, by a call that overrides the field's
+	// rule per call (RM{"F": "required"}): the tag's own rule is what judges the later plain call.
+	StructTagHist Kind = "struct-tag-after-override"
 )
 
-var All = []Kind{StructTag, StructRM, Var, Map, MapIface, SliceMap, Url, UrlEsc}
+var All = []Kind{StructTag, StructRM, Var, Map, MapIface, SliceMap, Url, UrlEsc, StructTagHist}
 
 // Box is the named carrier type for per-call rules.
 type Box[T any] struct{ F T }
@@ -30,7 +33,7 @@ type Box[T any] struct{ F T }
 // PathPrefix is the path under which the value is reported by each carrier ("" = no path).
 func PathPrefix(k Kind, v reflect.Value) string {
 	switch k {
-	case StructTag:
+	case StructTag, StructTagHist:
 		return "F"
 	case StructRM:
 		return "Box[" + typeArgName(v.Type()) + "].F"
@@ -136,7 +139,7 @@ func boxOf(v reflect.Value) interface{} {
 func Supports(k Kind, v reflect.Value) bool {
 	switch k {
 	case Url:
-		return v.Kind() == reflect.String && !strings.ContainsAny(v.String(), "&=?#%+")
+		return v.Kind() == reflect.String && !strings.ContainsAny(v.String(), "&=?#%+") && !hasCtl(v.String())
 	case UrlEsc:
 		return v.Kind() == reflect.String && !strings.ContainsAny(v.String(), "&=?#")
 	case StructRM:
@@ -145,12 +148,29 @@ func Supports(k Kind, v reflect.Value) bool {
 	return true
 }
 
+func hasCtl(s string) bool {
+	for i := 0; i < len(s); i++ {
+		if s[i] < 0x20 || s[i] == 0x7f {
+			return true
+		}
+	}
+	return false
+}
+
 // Validate runs the real entry point; it returns the error text and whether the result was nil.
 func Validate(k Kind, v reflect.Value, rules string) (string, bool) {
 	var err error
 	switch k {
 	case StructTag:
 		st := TagType(v.Type(), rules)
+		p := reflect.New(st)
+		p.Elem().Field(0).Set(v)
+		err = valid.Struct(p.Interface())
+	case StructTagHist:
+		st := TagType(v.Type(), rules)
+		first := reflect.New(st)
+		first.Elem().Field(0).Set(v)
+		_ = valid.Struct(first.Interface(), valid.RM{"F": "required"})
 		p := reflect.New(st)
 		p.Elem().Field(0).Set(v)
 		err = valid.Struct(p.Interface())
